@@ -228,7 +228,10 @@ def tlc(module, cfg=None, subdir=None, workers=1, heap="4g", timeout=900, env=No
         if subdir:
             dirs.append(os.path.join(SPEC, subdir))
         _stage(dirs, scratch)
-        cmd = ["java"] + JVM_FLAGS(workers) + [f"-Xmx{heap}", "-Xss64m", "-cp", TLA_CP, "tlc2.TLC",
+        # (TLC creates a temporary directory of its own per run and leaves it behind: keep it inside the scratch)
+        os.makedirs(os.path.join(scratch, "jtmp"), exist_ok=True)
+        cmd = ["java"] + JVM_FLAGS(workers) + [f"-Xmx{heap}", "-Xss64m", f"-Djava.io.tmpdir={os.path.join(scratch, 'jtmp')}",
+               "-cp", TLA_CP, "tlc2.TLC",
                "-workers", str(workers), "-metadir", os.path.join(scratch, "meta"),
                "-noGenerateSpecTE"]
         if cfg:
